@@ -80,6 +80,20 @@ def interval(eng, res, rule="R-INTERVAL"):
                 g = cfg.guard_exprs(cfg.node_of(r))
                 ok = any(pol and src(t).startswith(f"isinstance({param},") and "RememberAdd" in src(t) for t, pol in g)
                 res.ob(rule, pm, f"{ci.name}:guard", "the interval form is used exactly for interval arguments", r, ok, f"guards {[src(t) for t, _ in g]}")
+        # no other formula answers an interval argument: every return on an interval path is the cdf difference
+        # or hands the argument on to the base class
+        for r in own_nodes(pm.node):
+            if not (isinstance(r, ast.Return) and r.value is not None):
+                continue
+            g = cfg.guard_exprs(cfg.node_of(r))
+            if not any(pol and src(t).startswith(f"isinstance({param},") and "RememberAdd" in src(t) for t, pol in g):
+                continue
+            v = r.value
+            diff = isinstance(v, ast.BinOp) and isinstance(v.op, ast.Sub) and all(isinstance(x, ast.Call) and callee_name(x) == "cdf" for x in (v.left, v.right))
+            sup = isinstance(v, ast.Call) and callee_name(v) == "prob_mw" and isinstance(v.func, ast.Attribute) and isinstance(v.func.value, ast.Call) and callee_name(v.func.value) == "super" \
+                and len(v.args) == 1 and src(v.args[0]) == param
+            res.ob(rule, pm, f"{ci.name}:interval-only-by-cdf@{'diff' if diff else 'super' if sup else 'other'}",
+                   "an interval argument is answered only by the difference of the family's cdf (or by the base class)", r, diff or sup, f"returns {src(v)[:100]}")
     # RememberAdd.__iadd__
     ra = eng.prog.cls("RememberAdd")
     ia = ra.method("__iadd__")
